@@ -51,6 +51,12 @@ class Gen:
             self.TABLES, self.NICKS = ["A", "B"], ["A", "B", "aa"]
             self.FIELDS = ["f0", "A", "aa", "v0", "o0"]
             self.VARS, self.OPTS = ["v0", "A", "aa", "f0"], ["o0", "A", "v0", "f0", "aa"]
+        elif rng.random() < self.w.get("case_twin", 0.0):
+            # names that differ only in case are different names (tables, nicknames, variables);
+            # only for checks that capture rows directly: SQL outputs cannot hold tables B and b
+            self.features.add("case_twin_names")
+            self.TABLES, self.NICKS = ["A", "a", "B", "b"], ["aa", "aA", "bb"]
+            self.FIELDS, self.VARS, self.OPTS = FIELDS, ["v0", "V0", "v1"], OPTS
         else:
             self.TABLES, self.NICKS, self.FIELDS, self.VARS, self.OPTS = TABLES, NICKS, FIELDS, VARS, OPTS
 
@@ -888,3 +894,60 @@ def stream_once_cluster_randref(rng):
     r["raw"] = [rng.randint(0, 10 ** 6) for _ in range(60)]
     r["bias"] = rng.choice(["lo", "hi", "mix", "mix"])
     return r, feats + ["random_reference", "randref_field_lookup"]
+
+
+def stream_late_forward_reference(rng):
+    """a forward reference that is made for the first time in a LATER iteration (its template is idle in
+    the first one) while its target produces no row in that iteration: the iteration must fail with
+    'Reference not fulfilled' exactly as it would in the first iteration; with a target that does produce
+    a row the reference must name the row of the SAME iteration"""
+    a = ["attr", ["var", "A"], "id"]
+    idle_then_busy = _F(["e", ["sub", a, ["int", 1]]])                                   # 0,1,2
+    sq = ["mul", ["sub", a, ["int", 2]], ["sub", a, ["int", 2]]]                          # 1,0,1,4
+    tgt_count = rng.choice([["int", 0], _F(["e", sq]), _F(["e", sq]), None, ["int", 2]])
+    nick = rng.choice(["bb", "bb", None])
+    name = nick if (nick and rng.random() < 0.6) else "B"
+    how = rng.choice(["ref", "ref", "formula_id", "friend"])
+    if how == "ref":
+        c = _T("C", None, False, [("r", ["ref", name])], count=idle_then_busy)
+    elif how == "formula_id":
+        c = _T("C", None, False, [("r", _F(["e", ["attr", ["var", name], "id"]]))], count=idle_then_busy)
+    else:
+        c = _T("C", None, False, [("f0", ["int", 1])], count=idle_then_busy,
+               friends=[["obj", _T("D", None, False, [("r", ["ref", name])])]])
+    stmts = [["obj", _T("A", None, False, [("f0", ["int", 1])])], ["obj", c],
+             ["obj", _T("B", nick, False, [("f1", ["int", 2])], count=tgt_count)]]
+    if rng.random() < 0.3:         # another template of the target table that does not carry the nickname
+        stmts.append(["obj", _T("B", None, False, [("f1", ["int", 3])])])
+    return {"version": rng.choice([2, 3]), "options": [], "stmts": stmts}, \
+        ["late_forward_ref", "forward_ref", "count_formula"] + (["nick"] if nick else []) + \
+        (["zero_count"] if tgt_count == ["int", 0] else [])
+
+
+def stream_first_statement_names(rng):
+    """the FIRST thing evaluated in an iteration - a top-level variable, or the count of the first
+    template - mentions a name of a row that is created later in the iteration (table name or
+    nickname, directly or through a just_once singleton of another table): from the second
+    iteration on it must still denote this iteration's row / forward reference, never a row of the
+    previous iteration"""
+    nick = rng.choice(["bb", None])
+    name = nick if (nick and rng.random() < 0.6) else "B"
+    idv = ["attr", ["var", name], "id"]
+    stmts = []
+    kind = rng.choice(["var_id", "var_id", "count", "var_then_count"])
+    if kind in ("var_id", "var_then_count"):
+        stmts.append(["var", "v0", _F(["e", idv])])
+    first_fields = [("f0", _F(["e", ["var", "v0"]]))] if kind in ("var_id", "var_then_count") else [("f0", ["int", 1])]
+    first_fields.append(("r", ["ref", name]))
+    cnt = None
+    if kind in ("count", "var_then_count"):
+        cnt = _F(["e", ["add", ["mul", idv, ["int", 0]], ["int", rng.choice([1, 2])]]])
+    stmts.append(["obj", _T("A", None, False, first_fields, count=cnt)])
+    if rng.random() < 0.4:
+        stmts.append(["obj", _T("C", "cc", True, [("f2", ["int", 5])])])
+    stmts.append(["obj", _T("B", nick, False, [("f1", _F(["e", ["attr", ["var", "A"], "id"]]))],
+                           count=rng.choice([None, None, ["int", 2]]))])
+    if rng.random() < 0.4:
+        stmts.append(["obj", _T("D", None, False, [("back", ["ref", name]), ("a", ["ref", "A"])])])
+    return {"version": rng.choice([2, 3]), "options": [], "stmts": stmts}, \
+        ["first_statement_names", "forward_ref", "var_top"] + (["nick"] if nick else [])
